@@ -331,7 +331,17 @@ func genC09Plan(seed uint64, tier string) *ATPlan {
 	// a secondary unique index couples the branches of one global transaction
 	// (an earlier branch cannot put a value back while a later, not yet rolled
 	// back one holds it): the per-branch reference model does not cover that
-	p := genATPlanTweaked(seed, tier, "rollback", func(g *simkit.Gen, o *GenOpts) { o.UniqueIndex = false })
+	p := genATPlanTweaked(seed, tier, "rollback", func(g *simkit.Gen, o *GenOpts) {
+		o.UniqueIndex = false
+		if seed%8 == 5 {
+			// no draw: the other runs stay what they were. Two rows whose composite key
+			// values read the same when written one after the other, changed by one
+			// statement; the foreign writer then changes one of them (C09-i)
+			o.CollidingKeys, o.MultiRow = true, true
+			o.PKKinds = []string{"comp"}
+			o.WhereForms = []string{"nonpk", "or", "in", "between"}
+		}
+	})
 	p.Cfg.DataValidation = true
 	// the query that reads the current rows for the comparison may itself fail
 	// (lock wait timeout behind the foreign writer): the delivery must fail then,
